@@ -1,0 +1,45 @@
+//go:build verif
+
+package processorqueue
+
+import (
+	streamtypes "lunar/engine/streams/types"
+)
+
+// VerifHandle gives the external verification harness (property C06) access to
+// the unexported loop bodies of a queue processor so that it can run them at
+// instants of its own choosing. Exporting shims only: no behaviour lives here.
+type VerifHandle struct{ p *queueProcessor }
+
+// VerifHandleOf returns the handle of a processor created by NewProcessor.
+func VerifHandleOf(proc streamtypes.ProcessorI) (*VerifHandle, bool) {
+	p, ok := proc.(*queueProcessor)
+	if !ok {
+		return nil, false
+	}
+	return &VerifHandle{p: p}, true
+}
+
+// Tick runs one iteration body of process() (the 100 ms loop).
+func (h *VerifHandle) Tick() { h.p.tryProcessQueueItems() }
+
+// TTLScan runs one scan of the TTL watcher (body of manageTTLs).
+func (h *VerifHandle) TTLScan() { h.p.requestsWatcher.notifyExpiredRequests() }
+
+// Drain runs what process() runs once the context is cancelled.
+func (h *VerifHandle) Drain() { h.p.drainQueue() }
+
+// Count is the watcher's counter of registered requests.
+func (h *VerifHandle) Count() int64 { return h.p.requestsWatcher.GetCount() }
+
+// Signalled tells whether the request is registered and already marked
+// processed (its waiter has been, or is about to be, released).
+func (h *VerifHandle) Signalled(id string) (registered bool, signalled bool) {
+	req, found := h.p.requestsWatcher.GetRequest(id)
+	if !found {
+		return false, false
+	}
+	req.inProcessMutex.RLock()
+	defer req.inProcessMutex.RUnlock()
+	return true, req.state == requestProcessed
+}
